@@ -1,6 +1,9 @@
 (* C01 composed: for every sequence of ingestion pushes the cells that the query-path decoder reads
-   from the finished column are the cells the specification prescribes — outside three
-   characterised classes (F4, F10, F19), each with a witness that the faithful model violates. *)
+   from the finished column are the cells the specification prescribes.
+   History: on the code before /repo f5be0e2 / 481c464 / 3e7ef89 the statement was refuted by three
+   witnesses (F4, F10, F19) and carried guards excluding their classes; on the repaired code the
+   witnesses are positive examples and the only guard left concerns the range metadata of a
+   delta-coded column whose maximum lies within 2^32 of i64::MAX. *)
 From Coq Require Import ZArith List Bool Lia.
 From LV Require Import Model.CodecBase Model.IntEnc Model.FloatEnc Model.StrEnc Model.Codec
   Model.ColumnBuffer Model.Ingest Proofs.CodecBase Proofs.IntEnc Proofs.FloatEnc Proofs.StrEnc
@@ -25,7 +28,7 @@ Lemma spec_push_kind k cs op : fst (spec_push f2s (k, cs) op) = kind_step k op.
 Proof. destruct op; destruct k; reflexivity. Qed.
 
 (* the domain: ingestion pushes (no caller-supplied null map), values in i64, strings shorter than
-   2^24 bytes, no NULL after the buffer became Mixed (F4) *)
+   2^24 bytes *)
 Fixpoint ops_ok (k : kind) (ops : list push_op) : Prop :=
   match ops with
   | [] => True
@@ -71,23 +74,20 @@ Proof.
     rewrite cells_of_int_sval. now rewrite Ic.
   - destruct Ic as [_ Ic]. injection E as <-. rewrite float_roundtrip.
     rewrite Ic. cbn [raw_cells]. destruct (cb_present cb); reflexivity.
-  - destruct Ic as [_ Ic]. cbn in Io. destruct Io as [_ Hs].
+  - destruct Ic as [_ Ic]. cbn in Io. rename Io into Hs.
     unfold column_cells. rewrite (str_finalize_decode _ _ _ Hs E). cbn [bind].
     rewrite cells_of_str_sval. now rewrite Ic.
 Qed.
 
 (* ---------------------------------------------------------------------------------------------- *)
-(* finalize returns a column unless the integer data is in the F10 / F19 classes *)
+(* finalize returns a column.  The one guard left: `max - offset` in create_col's range metadata is
+   an i64 subtraction; for a delta-coded column with a negative minimum step it needs the maximum to
+   stay 2^32 below i64::MAX (reaching it from statistics that select delta coding takes a run of more
+   than 2^31 values).
+   History: before the fixes this was [data <> []], not F10 (delta_safe), not F19. *)
 
 Definition int_data_ok (data : list Z) (st : istats) : Prop :=
-  match data with
-  | [] => False                                   (* an empty integer buffer: not reachable by ingestion *)
-  | v0 :: r =>
-    if delta_decision st (zlen data) then
-      delta_safe v0 r /\                           (* not F10 *)
-      st_max st <= 9223372032559808511 /\ v0 <> i64_min /\ (forall d, In d (diffs v0 r) -> d <> i64_min)
-    else ~ (st_min st = i64_min /\ st_max st = 0)  (* not F19 *)
-  end.
+  delta_decision st (zlen data) = true -> st_max st <= 9223372032559808511.
 
 Definition int_guard (cb : colbuf) : Prop :=
   match cb_buf cb with TInt data st => int_data_ok data st | _ => True end.
@@ -100,12 +100,16 @@ Proof.
   - eauto.
   - apply str_finalize_total.
   - cbn in Io. destruct Io as [Hst Hd]. unfold int_finalize, int_data_ok in *.
-    destruct data as [|v0 r]; [destruct HG|].
-    destruct (istats_init_exact (v0 :: r)) as (B1 & B2 & B3 & B4 & B5 & B6); [discriminate|exact Hd|].
-    cbn zeta in *. rewrite <- Hst in *.
-    destruct (delta_decision st (zlen (v0 :: r))).
-    + destruct HG as (G1 & G2 & G3 & G4). now apply new_boxed_delta_total.
-    + now apply new_boxed_plain_total.
+    destruct data as [|v0 r].
+    + subst st. exact (new_boxed_empty (cb_present cb)).
+    + destruct (istats_init_exact (v0 :: r)) as (B1 & B2 & B3 & B4 & B5 & B6); [discriminate|exact Hd|].
+      cbn zeta in *. rewrite <- Hst in *.
+      destruct (delta_decision st (zlen (v0 :: r))) eqn:Ed.
+      * apply new_boxed_delta_total;
+          [exact Hd| |exact B1|exact B2|exact B3|exact (HG eq_refl)].
+        apply istats_allow_safe. rewrite <- Hst.
+        unfold delta_decision in Ed. apply andb_true_iff in Ed. exact (proj1 Ed).
+      * now apply new_boxed_plain_total.
   - eauto.
   - apply str_finalize_total.
 Qed.
@@ -264,45 +268,31 @@ Proof.
 Qed.
 
 (* ---------------------------------------------------------------------------------------------- *)
-(* the excluded classes are inhabited: the full statement is false of the faithful model *)
-
-Definition C01_full_statement : Prop :=
-  forall (f2s : Z -> str) (ops : list push_op),
-    (forall f, zlen (f2s f) < 16777216) ->
-    Forall (fun op => match op with
-                      | PInts xs np => np = None /\ xs <> [] /\ i64s xs
-                      | PFloats fs np => np = None /\ fs <> []
-                      | PStrs ss np => np = None /\ ss <> [] /\ short_strings ss
-                      | PNulls n => 0 <= n
-                      end) ops ->
-    stored f2s ops = Val (expected f2s ops).
+(* The former counterexamples.  On the code before the fixes [stored] of these histories was,
+   respectively, two cells instead of three (F4), Panic SubOverflow (F10), Panic SubOverflow (F19),
+   which refuted the full statement; on the repaired code each of them round-trips. *)
 
 Definition no_display : Z -> str := fun _ => [].
 
-(* F4: a NULL after the buffer became Mixed is dropped *)
-Lemma F4_witness :
-  stored no_display [PStrs [[97]] None; PInts [1] None; PNulls 1] = Val [CStr [97]; CStr [49]] /\
+Lemma former_F4_witness :
+  stored no_display [PStrs [[97]] None; PInts [1] None; PNulls 1] =
+  Val (expected no_display [PStrs [[97]] None; PInts [1] None; PNulls 1]) /\
   expected no_display [PStrs [[97]] None; PInts [1] None; PNulls 1] = [CStr [97]; CStr [49]; CNull].
-Proof. split; reflexivity. Qed.
+Proof. split; vm_compute; reflexivity. Qed.
 
-(* F10: [i64::MIN+1, i64::MAX-1] is delta-eligible and the transform overflows *)
-Lemma F10_witness :
-  stored no_display [PInts [i64_min + 1; i64_max - 1] None] = Panic SubOverflow.
-Proof. reflexivity. Qed.
+Lemma former_F10_witness :
+  stored no_display [PInts [i64_min + 1; i64_max - 1] None] = Val [CInt (i64_min + 1); CInt (i64_max - 1)].
+Proof. vm_compute. reflexivity. Qed.
 
-(* F19: [i64::MIN, NULL] overflows in the width selection *)
-Lemma F19_witness :
-  stored no_display [PInts [i64_min] None; PNulls 1] = Panic SubOverflow.
-Proof. reflexivity. Qed.
+Lemma former_F19_witness :
+  stored no_display [PInts [i64_min] None; PNulls 1] = Val [CInt i64_min; CNull].
+Proof. vm_compute. reflexivity. Qed.
 
-Lemma C01_full_statement_refuted : ~ C01_full_statement.
-Proof.
-  intros H.
-  specialize (H no_display [PInts [i64_min] None; PNulls 1]).
-  rewrite (F19_witness) in H.
-  assert (E : Panic SubOverflow = Val (expected no_display [PInts [i64_min] None; PNulls 1])).
-  { apply H.
-    - intros f. cbn. lia.
-    - repeat constructor; try discriminate; unfold i64_min, i64_max; lia. }
-  discriminate E.
-Qed.
+(* The statement without any guard.  It is neither proved nor refuted here: the only obstacle left is
+   the range-metadata subtraction described at [int_data_ok], whose witness would be a column of more
+   than 2^31 values. *)
+Definition C01_full_statement : Prop :=
+  forall (f2s : Z -> str) (ops : list push_op),
+    (forall f, zlen (f2s f) < 16777216) ->
+    ops_ok KEmpty ops ->
+    stored f2s ops = Val (expected f2s ops).
